@@ -683,9 +683,12 @@ pub fn gen_glib(rng: &mut Rng) -> String {
     // list cells dependencies-first or in random order
     let mut order: Vec<usize> = (0..n).collect();
     for i in (1..n).rev() { let j = rng.below(i as u64 + 1) as usize; order.swap(i, j); }
+    // a third of the libraries with two or more cells have two cell names that differ ONLY in letter case (c0 / C0)
+    let twins = n >= 2 && (n + order[0]) % 3 == 0;
+    let cname = |i: usize| -> String { if twins && i == 1 { "C0".to_string() } else { format!("c{}", i) } };
     let mut cells = vec![];
     for &i in &order {
-        let insts: Vec<String> = tbl[i].iter().enumerate().map(|(k, d)| format!("(i {} {} {} {} {} {})", of_bytes(format!("i{}", k).as_bytes()), of_bytes(format!("c{}", d).as_bytes()), rng.range(-1000, 1000), rng.range(-1000, 1000), if rng.coin() { "#t" } else { "#f" }, ANGLES[rng.below(6) as usize])).collect();
+        let insts: Vec<String> = tbl[i].iter().enumerate().map(|(k, d)| format!("(i {} {} {} {} {} {})", of_bytes(format!("i{}", k).as_bytes()), of_bytes(cname(*d).as_bytes()), rng.range(-1000, 1000), rng.range(-1000, 1000), if rng.coin() { "#t" } else { "#f" }, ANGLES[rng.below(6) as usize])).collect();
         let ne = rng.below(6);
         let elems: Vec<String> = (0..ne).map(|k| {
             // separate shapes spatially unless we want overlaps
@@ -693,7 +696,7 @@ pub fn gen_glib(rng: &mut Rng) -> String {
             let net = match rng.below(4) { 0 => "#f".to_string(), 1 => of_bytes(b"vdd").to_string(), 2 => of_bytes(b"NetA").to_string(), _ => of_bytes(format!("n{}", k).as_bytes()).to_string() };
             format!("(e {} {} {} {})", net, rng.pick(&layers), rng.below(3), gen_raw_shape(rng, ox, oy))
         }).collect();
-        cells.push(format!("(cell {} (insts {}) (elems {}) (annots))", of_bytes(format!("c{}", i).as_bytes()), insts.join(" "), elems.join(" ")).replace(" )", ")"));
+        cells.push(format!("(cell {} (insts {}) (elems {}) (annots))", of_bytes(cname(i).as_bytes()), insts.join(" "), elems.join(" ")).replace(" )", ")"));
     }
     format!("(glib {} {} (layers {}) {})", of_bytes(b"lib"), rng.below(4), rows.join(" "), cells.join(" "))
 }
@@ -721,10 +724,14 @@ pub fn gen_gds_lib(rng: &mut Rng, malform: u64, big: bool) -> GdsLibrary {
     lib.units = gds_units(rng);
     let mut order: Vec<usize> = (0..n).collect();
     for i in (1..n).rev() { let j = rng.below(i as u64 + 1) as usize; order.swap(i, j); }
+    // a third of the libraries with two or more structures have two structure names that differ ONLY in letter case
+    // (s0 / S0): GDSII names are case-sensitive, the two are different cells
+    let twins = n >= 2 && (n + order[0]) % 3 == 0;
+    let sname = |i: usize| -> String { if twins && i == 1 { "S0".to_string() } else { format!("s{}", i) } };
     for &i in &order {
-        let mut s = GdsStruct::new(format!("s{}", i));
+        let mut s = GdsStruct::new(sname(i));
         for (k, d) in tbl[i].iter().enumerate() {
-            let name = if malform == 2 && k == 0 { "nowhere".to_string() } else { format!("s{}", d) };
+            let name = if malform == 2 && k == 0 { "nowhere".to_string() } else { sname(*d) };
             if rng.chance(1, 3) {
                 let (cols, rows) = if malform == 3 && k == 0 { if rng.coin() { (0, 3) } else { (2, -1) } } else if big && k == 0 { [(200, 200), (182, 182), (1, 400), (300, 2)][rng.below(4) as usize] } else { (1 + rng.below(5) as i16, 1 + rng.below(5) as i16) };
                 let p0 = (rng.range(-500, 500) as i32, rng.range(-500, 500) as i32);
